@@ -337,7 +337,7 @@ def step (cfg : Cfg) (s : State) (t : Nat) (c : Nat) : Option (StepOut State) :=
       | .enq code =>
         some { st := { setThr s t { th with pc := .call k .unlock } with
                          queue := s.queue ++ [⟨s.nextId, code⟩], nextId := s.nextId + 1, wJ := notifyRest s.wJ c },
-               evs := [ev t s!"n1(cvj)>{notifyWho s.wJ c}"], drawIdx := notifyIdx s.wJ c }
+               evs := [ev t s!"n1(cvj)>{notifyWho s.wJ c}"], drawIdx := notifyIdx s.wJ c, drawWidth := s.wJ.length }
       | _ => none
     | .tStore => out { setThr s t { th with pc := .call k .tNotifyJ } with term := true } [ev t "st(term)=1"]
     | .tNotifyJ => out { setThr s t { th with pc := .call k .tNotifyF } with wJ := [] } [ev t s!"nall(cvj)#{s.wJ.length}"]
